@@ -67,6 +67,12 @@ def gen_case(r, k, same=None):
          "szd": same and r.random() < 0.3, "hideJ": r.random() < 0.4,
          "T": r.choice([0.0, 250.0, 1000.0, 4000.0]),
          "abf_first": r.random() < 0.5}
+    # scaledBiasingForce: a factor per bin of a grid with the geometry of the ABF grid
+    nt = 1
+    for v in vars_:
+        nt *= v["nx"]
+    c["scaled"] = r.random() < 0.25
+    c["sfac"] = [r.choice([0.0, 0.25, 0.5, 0.5, 1.0, 2.0, -1.0]) for _ in range(nt)] if c["scaled"] else []
     nsteps = r.randint(6, 26)
     steps = []
     prev = None
@@ -158,6 +164,31 @@ def fmt(x):
     return repr(float(x))
 
 
+def scaling_grid_file(c):
+    """scaledBiasingForceFactorsGrid in the multicolumn format of colvar_grid::read_multicol"""
+    vs = c["vars"]
+    L = ["# %d" % len(vs)]
+    for v in vs:
+        L.append("# %s %s %d %d" % (fmt(v["lower"]), fmt(v["w"]), v["nx"], 1 if v["periodic"] else 0))
+    L.append("")
+    ix = [0] * len(vs)
+    for a in range(len(c["sfac"])):
+        rem = a
+        for d in range(len(vs) - 1, -1, -1):
+            ix[d] = rem % vs[d]["nx"]
+            rem //= vs[d]["nx"]
+        L.append(" ".join(fmt(v["lower"] + (i + 0.5) * v["w"]) for v, i in zip(vs, ix)) + " " + fmt(c["sfac"][a]))
+    return "\n".join(L) + "\n"
+
+
+def scale_factor(c, st):
+    """factor applied to the ABF force at a step (colvarbias::communicate_forces)"""
+    if not c.get("scaled"):
+        return Fr(1)
+    ix = bin_of(c, st)
+    return Fr(c["sfac"][address(c, ix)]) if in_grid(c, ix) else Fr(1)
+
+
 def scenario(c):
     nd = len(c["vars"])
     amap, natoms = atom_map(c)
@@ -187,6 +218,8 @@ def scenario(c):
         abf += ["  stepZeroData on"]
     if c["hideJ"]:
         abf += ["  hideJacobian on"]
+    if c.get("scaled"):
+        abf += ["  scaledBiasingForce on", "  scaledBiasingForceFactorsGrid %s.sf" % c["id"]]
     abf += ["}"]
     harm = []
     hv = [d for d, v in enumerate(c["vars"]) if v["hk"] is not None]
@@ -224,6 +257,10 @@ def model_case(c):
     parts += [str(int(c["szd"])), str(int(c["same"]))] + [str(int(v["sub"])) for v in vs]
     parts += [str(int(c["hideJ"]))]
     parts += [str(int(v["hk"] is not None)) for v in vs]
+    nt = 1
+    for v in vs:
+        nt *= v["nx"]
+    parts += [str(int(bool(c.get("scaled"))))] + [V.hexf(x) for x in (c["sfac"] if c.get("scaled") else [1.0] * nt)]
     parts += [str(len(c["steps"]))]
     for st in c["steps"]:
         parts += [V.hexf(colvar_value(v, z)) for v, z in zip(vs, st["z"])]
@@ -467,8 +504,9 @@ def oracle(c, impl_steps, state=None):
             break
         o = other_forces(c, st)
         jj = [(j if c["hideJ"] else 0.0) for j in jac_forces(c, st)]
-        if not all(close(Fr(a) + Fr(b) - Fr(j), g) for a, b, j, g in zip(f["cf"], o, jj, f["af"])):
-            bad.append(("oracle:af", "step %d: force applied to the variables %s is not ABF force %s + restraint force %s - hidden Jacobian force %s" % (t, f["af"], f["cf"], o, jj)))
+        sf = scale_factor(c, st)
+        if not all(close(Fr(a) * sf + Fr(b) - Fr(j), g) for a, b, j, g in zip(f["cf"], o, jj, f["af"])):
+            bad.append(("oracle:af", "step %d: force applied to the variables %s is not ABF force %s * scaling factor %s + restraint force %s - hidden Jacobian force %s" % (t, f["af"], f["cf"], float(sf), o, jj)))
             break
     # final arrays = attributed samples
     smp = expected_samples(c)
@@ -500,6 +538,8 @@ def oracle(c, impl_steps, state=None):
             sig, why = "sample:hideJacobian-same-step-adds-jacobian", " (hideJacobian, same-step forces, distance variable(s) %s)" % hj
         elif hn and len(hn) == len(dbad):
             sig, why = "sample:hideJacobian-without-applied-force", " (hideJacobian, lagged forces, no bias applies a force to distance variable(s) %s)" % hn
+        elif c.get("scaled") and not c["same"] and c["apply"] and all(not c["vars"][d]["sub"] for d in dbad):
+            sig, why = "sample:scaledBiasingForce-unscaled-force-subtracted", " (scaledBiasingForce on, lagged forces)"
         else:
             sig, why = "oracle:sum", ""
         k = badk[0]
@@ -656,13 +696,29 @@ def judge_hidej_noforce(c, steps):
     return None
 
 
+def witness_scaled():
+    """E6: scaledBiasingForce with the factor 1/2 in both bins, lagged forces, minSamples 0, fullSamples 1, engine force 2 at
+    every step: ABF force -2, applied -1, measured 1, every sample 1 - (-1) = 2."""
+    return _c1("W6", _v1(), [(0.5, 2.0, False)] * 4, full=1, min=0, apply=True, scaled=True, sfac=[0.5, 0.5])
+
+
+def judge_scaled(c, steps):
+    got, n = steps[-1]["sum"][0], steps[-1]["cnt"][0]
+    if n != 3 or got != -6.0:
+        return ("scaledBiasingForce on with the factor 0.5, lagged total forces, engine force 2 at every step: the ABF force is -2, the variable receives -1 "
+                "(applied force %s), the measured force is 1 and every sample must be 1 - (-1) = 2: stored sum -6 with count 3; the implementation stores %s with count %s "
+                "(update_system_force subtracts the unscaled colvar_forces)" % (steps[-1]["af"][0], got, n))
+    return None
+
+
 WITNESSES = ((witness_zero_total, "sample:subtractAppliedForce-zero-total-force", judge_zero_total),
              (witness_zero_total_abf, "sample:subtractAppliedForce-zero-total-force", judge_zero_total_abf),
              (witness_value_zero, "sample:force-dropped-at-value-zero", judge_value_zero),
              (witness_zero_mean, "force:periodic-zero-mean-during-ramp", judge_zero_mean),
              (witness_zero_mean_ramp, "force:periodic-zero-mean-during-ramp", judge_zero_mean_ramp),
              (witness_hidej_same, "sample:hideJacobian-same-step-adds-jacobian", judge_hidej_same),
-             (witness_hidej_noforce, "sample:hideJacobian-without-applied-force", judge_hidej_noforce))
+             (witness_hidej_noforce, "sample:hideJacobian-without-applied-force", judge_hidej_noforce),
+             (witness_scaled, "sample:scaledBiasingForce-unscaled-force-subtracted", judge_scaled))
 
 
 # ------------------------------------------------------------------------------- running
@@ -670,6 +726,9 @@ def run_batch(exe, cases, d, tag):
     lines = []
     for c in cases:
         lines += scenario(c)
+        if c.get("scaled"):
+            with open(os.path.join(d, "%s.sf" % c["id"]), "w") as f:
+                f.write(scaling_grid_file(c))
     sc = os.path.join(d, "batch_%s.scn" % tag)
     with open(sc, "w") as f:
         f.write("\n".join(lines) + "\n")
@@ -708,7 +767,9 @@ def tie_case(run, c, im, mline):
     for t, (a, b) in enumerate(zip(steps_i, msteps)):
         bad = compare_fields(a, b)
         if bad:
-            run.mismatch(bad, {"case": c, "step": t}, {k_: a.get(k_) for k_ in SHOWN}, {k_: b.get(k_) for k_ in SHOWN})
+            # component names share their first token with the oracle signatures of the same family
+            comp = ("force:" if bad in ("cf", "af") else "sample:") + bad
+            run.mismatch(comp, {"case": c, "step": t}, {k_: a.get(k_) for k_ in SHOWN}, {k_: b.get(k_) for k_ in SHOWN})
             return
 
 
@@ -718,7 +779,7 @@ def check(run):
     run.cov["rule"] = ("scenarios: 1-3 variables, each an exact distanceZ (periodic grids spanning the period, or not) or a distance along z "
                        "(Jacobian force 2kT/r, T in {0,250,1000,4000} K, one-site or two-site total force), dyadic engine forces, "
                        "harmonic restraints as other biases, subtractAppliedForce per variable, both timing conventions, minSamples/fullSamples 0..6, "
-                       "maxForce, applyBias/updateBias off, stepZeroData, hideJacobian, run boundaries, values on bin edges / inside / outside. "
+                       "maxForce, applyBias/updateBias off, stepZeroData, hideJacobian, scaledBiasingForce (dyadic factor per bin), run boundaries, values on bin edges / inside / outside. "
                        "After every step bin, force_bin, ABF force, reported total force, applied force, samples and gradients arrays and the stored "
                        "gradient (value_output) are compared (bit-exact) with the extracted model; the saved state's samples/gradient blocks are checked "
                        "against the exact mean of the attributed samples. non-trivial = >=2 bins hit, >=1 step outside the grid or rejected, >=1 bin above minSamples")
@@ -794,6 +855,7 @@ def check(run):
         run.dist("restrained_vars", sum(1 for v in c["vars"] if v["hk"] is not None))
         run.dist("distance_vars_with_jacobian", sum(1 for v in c["vars"] if kind(v) == "dist" and c.get("T", 0.0) != 0.0))
         run.dist("hideJacobian", 1 if c["hideJ"] else 0)
+        run.dist("scaledBiasingForce", 1 if c.get("scaled") else 0)
         if im.get("state") is not None:
             nstate += 1
         # property oracle on the implementation alone
